@@ -91,6 +91,9 @@ class CallsMixin:
 
     def call_key(self, st, key, recv, argv, e):
         line = e.get('line')
+        for pref in ('natives:', 'goroot:'):       # functions of a std package merged with its overlay are keyed by origin
+            if key not in self.contracts and key not in self.funcs and key not in self.externs and (pref + key in self.contracts or pref + key in self.funcs or pref + key in self.externs):
+                key = pref + key
         c = self.contracts.get(key)
         if c is not None and not (self.frame and key in self.frame_inlines()):
             return self.apply_contract(st, c, key, recv, argv, e, assumed=False)
@@ -553,6 +556,27 @@ class CallsMixin:
             return v
         if self.tt.is_float(to_tid) and z3.is_fp(v):
             return z3.fpToFP(z3.RNE(), v, F32 if self.tt.basic(to_tid) == 'float32' else F64)
+        if self.tt.is_float(to_tid) and ii_from is not None and isinstance(v, z3.ExprRef):
+            # integer -> float: exact for <= 32-bit operands in binary64
+            srt = F32 if self.tt.basic(to_tid) == 'float32' else F64
+            bv = v if z3.is_bv(v) else z3.Int2BV(v, 64)
+            return z3.fpSignedToFP(z3.RNE(), bv, srt) if ii_from[1] else z3.fpUnsignedToFP(z3.RNE(), bv, srt)
+        if ii_to and z3.is_fp(v):
+            # float -> integer.  Under GopherJS the conversion to a <= 32-bit kind is emitted as `x >> 0` / `x >>> 0`: ToInt32 /
+            # ToUint32 of the double, i.e. truncation toward zero taken modulo 2^32 (ECMA-262 7.1.6); for |x| >= 2^63, NaN
+            # and infinities the value is left arbitrary here (ToInt32 is still defined, but not modelled).
+            w, sg = ii_to
+            big = z3.fpToSBV(z3.RTZ(), v, z3.BitVecSort(64))
+            inrange = z3.And(z3.Not(z3.fpIsNaN(v)), z3.Not(z3.fpIsInf(v)), z3.fpLT(v, z3.FPVal(2.0 ** 63, v.sort())), z3.fpGT(v, z3.FPVal(-(2.0 ** 63), v.sort())))
+            r = fresh('f2i')
+            ww = w or 64
+            low = z3.Extract(ww - 1, 0, big)
+            st.assume(z3.Implies(inrange, r == z3.BV2Int(low, sg)))
+            lo_t, hi_t = (-(1 << (ww - 1)), (1 << (ww - 1)) - 1) if sg else (0, (1 << ww) - 1)
+            st.assume(z3.And(r >= lo_t, r <= hi_t))
+            if self.mode == 'bv':
+                return z3.Int2BV(r, ww)
+            return r
         if self.tt.is_bool(to_tid):
             return v
         raise Unsupported('conversion %s -> %s @%s' % (self.tt[from_tid]['s'] if from_tid is not None else '?', self.tt[to_tid]['s'], line))
